@@ -194,25 +194,52 @@ struct InMsg {
 
 impl InMsg {
     fn encode(&self) -> Vec<u8> {
+        self.encode_with(0)
+    }
+
+    /// `extras` adds what a peer may put into a message and the loop must not care about:
+    /// bit 0 a legacy `blocks` entry (Bitswap 1.0.0), bit 1 `pendingBytes`, bit 2 `full` on the
+    /// wantlist, bit 3 unknown fields (in the message and in a wantlist entry), bit 4 the
+    /// wantlist sent as two `wantlist` fields (protobuf merges them: the entries add up).
+    fn encode_with(&self, extras: u64) -> Vec<u8> {
         let mut out = Vec::new();
+        if extras & 1 != 0 {
+            pb_bytes(2, &payload(999, 50), &mut out);
+        }
         if let Some(entries) = &self.wantlist {
-            let mut wl = Vec::new();
-            for e in entries {
-                let mut eb = Vec::new();
-                pb_bytes(1, &e.block, &mut eb);
-                pb_int(2, i32_wire(e.priority), &mut eb);
-                if e.cancel {
-                    pb_int(3, 1, &mut eb);
+            let cut = if extras & 16 != 0 { entries.len() / 2 } else { entries.len() };
+            for (k, part) in [&entries[..cut], &entries[cut..]].iter().enumerate() {
+                if k == 1 && extras & 16 == 0 {
+                    break;
                 }
-                if e.want_type != 0 {
-                    pb_int(4, i32_wire(e.want_type), &mut eb);
+                let mut wl = Vec::new();
+                for e in part.iter() {
+                    let mut eb = Vec::new();
+                    pb_bytes(1, &e.block, &mut eb);
+                    pb_int(2, i32_wire(e.priority), &mut eb);
+                    if e.cancel {
+                        pb_int(3, 1, &mut eb);
+                    }
+                    if e.want_type != 0 {
+                        pb_int(4, i32_wire(e.want_type), &mut eb);
+                    }
+                    if e.send_dont_have {
+                        pb_int(5, 1, &mut eb);
+                    }
+                    if extras & 8 != 0 {
+                        pb_int(11, 77, &mut eb);
+                    }
+                    pb_bytes(1, &eb, &mut wl);
                 }
-                if e.send_dont_have {
-                    pb_int(5, 1, &mut eb);
+                if extras & 4 != 0 {
+                    pb_int(2, 1, &mut wl);
                 }
-                pb_bytes(1, &eb, &mut wl);
+                pb_bytes(1, &wl, &mut out);
             }
-            pb_bytes(1, &wl, &mut out);
+        }
+        if extras & 8 != 0 {
+            pb_int(9, 12345, &mut out);
+            pb_bytes(10, &[1, 2, 3], &mut out);
         }
         for (prefix, did, dlen) in &self.payload {
             let mut b = Vec::new();
@@ -227,6 +254,9 @@ impl InMsg {
                 pb_int(2, i32_wire(*t), &mut b);
             }
             pb_bytes(4, &b, &mut out);
+        }
+        if extras & 2 != 0 {
+            pb_int(5, 4242, &mut out);
         }
         out
     }
@@ -569,7 +599,8 @@ pub fn gen_node(rng: &mut Rng, thorough: bool) -> Vec<u64> {
         match op {
             1 => inb[p] = true,
             2 => {
-                c.push(rng.pick(&[0u64, 0, 1, 2, 5, 30]));
+                let extras = if rng.chance(30) { rng.below(32) } else { 0 };
+                c.push(rng.pick(&[0u64, 0, 1, 2, 5, 30]) + 1000 * extras);
                 gen_message(rng, &mut c);
             }
             3 => {
@@ -731,7 +762,7 @@ pub fn run_pres(c: &[u64]) -> Option<Vec<u64>> {
             out.push(id);
         }
         match bs::presences_message(batch.clone()) {
-            None => out.extend([0, 0]),
+            None => out.extend([0, 0, 0]),
             Some((msg, count)) => {
                 out.push(msg.len() as u64);
                 let dec = bs::SchemaMessage::decode(&msg[..]).ok()?;
@@ -743,6 +774,7 @@ pub fn run_pres(c: &[u64]) -> Option<Vec<u64>> {
                     put_bytes(&p.cid, &mut out);
                     out.push(p.r#type as u32 as u64);
                 }
+                put_bytes(&msg, &mut out);
             }
         }
     }
@@ -1137,10 +1169,12 @@ async fn run_node_async(c: &[u64]) -> Option<Vec<u64>> {
                 node.inbound[p] = Some(carrier);
             }
             2 => {
-                let split = rd.n()? as usize;
+                // split + 1000 * extras (see InMsg::encode_with)
+                let raw = rd.n()?;
+                let (split, extras) = ((raw % 1000) as usize, raw / 1000);
                 let m = rd.message()?;
                 if let Some(carrier) = node.inbound[p].clone() {
-                    let f = frame(&m.encode());
+                    let f = frame(&m.encode_with(extras));
                     if split > 0 && split < f.len() {
                         carrier.feed(&f[..split]);
                         // nothing may be delivered from a frame that is not complete yet
@@ -1439,6 +1473,7 @@ pub fn run_wants(c: &[u64]) -> Option<Vec<u64>> {
             out.extend([x.priority as u32 as u64, x.cancel as u64, x.want_type as u32 as u64, x.send_dont_have as u64]);
         }
         out.push(w.full as u64);
+        put_bytes(&msg, &mut out);
         if !dec.payload.is_empty() || !dec.block_presences.is_empty() {
             out.push(666_666_666);
         }
@@ -1447,5 +1482,45 @@ pub fn run_wants(c: &[u64]) -> Option<Vec<u64>> {
         }
     }
     out[1] = nb;
+    Some(out)
+}
+
+// ------------------------------------------------------------------ kind 7: blocks_message, byte for byte
+
+pub fn gen_blocks_msg(rng: &mut Rng) -> Vec<u64> {
+    let n = rng.pick(&[0u64, 1, 1, 2, 3, 6]);
+    let mut c = vec![7, n];
+    for _ in 0..n {
+        let s = gen_cid(rng);
+        put_cidspec(s.0, s.1, s.2, &s.3, &mut c);
+        let dl = rng.pick(&[0u64, 0, 1, 5, 40, 127, 128, 300]);
+        c.push(dl);
+        for _ in 0..dl {
+            c.push(rng.below(256));
+        }
+    }
+    c
+}
+
+pub fn run_blocks_msg(c: &[u64]) -> Option<Vec<u64>> {
+    let mut rd = Rd { c, i: 1 };
+    let n = rd.n()? as usize;
+    if n > c.len() {
+        return None;
+    }
+    let mut blocks = Vec::new();
+    for _ in 0..n {
+        let cid = rd.cid()?;
+        let data = rd.bytes()?;
+        blocks.push((cid, data));
+    }
+    if rd.i != c.len() {
+        return None;
+    }
+    let mut out = vec![7u64];
+    match bs::blocks_message(blocks) {
+        None => out.push(0),
+        Some((msg, _)) => put_bytes(&msg, &mut out),
+    }
     Some(out)
 }
